@@ -2140,6 +2140,41 @@ def c01h(F, R):
             R.bad(what, f"{what} map: `{m['name']}` covers {sorted(seen)} (fed by the kill set: {fed}) but values of kind {sorted(cur - seen)} also name a current register", loc(m))
         else:
             R.bad(what, f"the {what} map keeps values of kind {sorted(cur)} after the register they name is overwritten: `sw a0,0(sp); li a0,9; lw t1,0(sp)` claims slot = 9 and t1 = a0", f["sp"])
+        # ... and it is the last word: what the node generates describes its operands as they were before it, so a description that
+        # still names a register the node overwrites (`csrrw t0, uscratch, t0`: the CSR gets the *old* t0) must not survive either
+        setter = [p_ for p_, f_ in setters.items() if f_ == fld]
+        pubs = [m for m in walk(body, pats=False) if m.get("k") in ("MethodCall", "Call") and callee_of(m) in setter]
+        from .p_parse import parent_map
+        pm_ = parent_map(body)
+        for pub in pubs:
+            args_ = call_recv_args(pub)[1]
+            X = ekey(args_[-1]).lstrip("&*") if args_ else None
+            blk = pm_.get(id(pub))
+            while blk is not None and blk.get("k") != "Block":
+                blk = pm_.get(id(blk))
+            if X is None or blk is None or lit_value(args_[-1]) is not None or peel(args_[-1]).get("k") != "Path":
+                continue
+            stmts_ = blk.get("stmts", [])
+            last_write = last_forget = -1
+            for i_, st in enumerate(stmts_):
+                if any(y is pub for y in walk(st, pats=False)):
+                    break
+                for m in walk(st, pats=False):
+                    if m.get("k") == "MethodCall" and ekey(m["recv"]).lstrip("&*") == X:
+                        if forgetter(m) is not None and any((x.get("k") == "Path" and x.get("res") in kill_locals) or (x.get("k") == "MethodCall" and x["name"] == "kill_reg") for a in m["args"] for x in walk(a, pats=False)):
+                            last_forget = i_
+                        elif m["name"] in ("insert", "extend", "union", "union_if"):
+                            last_write = i_
+                    if m.get("k") in ("Call", "MethodCall") and any(peel(a_).get("k") == "AddrOf" and peel(a_).get("mut") and ekey(peel(a_)["e"]) == X for a_ in m.get("args", [])):
+                        last_write = i_
+                    if m.get("k") == "Assign" and ekey(m["l"]) == X:
+                        last_write = i_
+                if st.get("k") == "Let" and st["pat"].get("k") == "PBinding" and st["pat"]["name"] == X:
+                    last_write = max(last_write, i_)
+            if last_forget > last_write >= 0:
+                R.ok(f"{what}|last-word", detail=f"`{X}`: nothing is added after the values that read a killed register were dropped", where=loc(pub))
+            elif last_write >= 0:
+                R.bad(f"{what}|last-word", f"`{X}` still receives values after the last `forget` of what reads a killed register: what the node generates (or a rewrite rule adds) may describe its operand by name - `csrrw t0, uscratch, t0` records 'the CSR holds t0', t0 is overwritten by the same instruction, and from the next node on the CSR is claimed to hold whatever t0 holds then (with uscratch = 1 before: the CSR is claimed to be 1)", loc(stmts_[last_write]))
 
 
 @rule("C16", "C16.d.label-transfers-are-edges-or-calls", floor=4)
